@@ -44,7 +44,12 @@ def build_cases(tier, seed, salt, budget=None, with_empty=False):
 
 def operands_of(case):
     op = NNOPS[case["op"]]
-    return op.operands(case["a"])
+    specs = op.operands(case["a"])
+    # hard labels handed over as integer / bool tensors (case["int_operands"] = {operand index: dtype name})
+    for i, dtname in (case.get("int_operands") or {}).items():
+        if int(i) < len(specs) and not specs[int(i)]["int"]:
+            specs[int(i)] = dict(specs[int(i)], int=True, diff=False, idtype=dtname, hard=True)
+    return specs
 
 
 def materialize(case, rng=None):
@@ -53,6 +58,8 @@ def materialize(case, rng=None):
     xs = []
     for sp in specs:
         v = nncatalog.operand_values(rng, sp, case["a"])
+        if sp.get("hard"):
+            v = (np.asarray(v) > 0.5).astype(sp["idtype"])
         xs.append(np.asarray(v))
     return specs, xs
 
@@ -62,7 +69,7 @@ def to_tensors(ns, specs, xs, dtype, req, storage="plain"):
     pool = {}
     for i, (sp, x, r) in enumerate(zip(specs, xs, req)):
         if sp["int"]:
-            ts.append(ns.Tensor(np.asarray(x, dtype=np.int64)))
+            ts.append(ns.Tensor(np.asarray(x, dtype=sp.get("idtype", np.int64))))
         else:
             arr = np.array(x, dtype=dtype, copy=True)
             if storage != "plain":
